@@ -16,6 +16,8 @@ func TestMain(m *testing.M) {
 		os.Exit(helperRelay(os.Getenv("VERIF_RELAY_ADDR")))
 	case "activation":
 		os.Exit(helperActivation())
+	case "race":
+		os.Exit(helperRace())
 	}
 	os.Exit(m.Run())
 }
